@@ -81,3 +81,19 @@ CHECKS["C05"] = dict(
     design_ref="DESIGN.md 4 C05",
     assumptions=["reference lattice (ref/reflattice.hh) is correct"],
 )
+
+CHECKS["C06"] = dict(
+    title="MIP solver: status, optimum and witness are right, incrementally or from scratch",
+    quick=T([("c06_mip", 1)], cases=60000, secs=45),
+    thorough=T([("c06_mip", 1)], cases=1500000, secs=600, flavour="san"),
+    rule="case = history over one MIP_Problem (1-5 variables, free variables, = and >= rows, integer variables boxed in [-3,3] so that "
+         "enumeration is complete): solve / is_satisfiable / feasible_point / optimizing_point / optimal_value interleaved with add_constraint(s), "
+         "new dimensions, new integer variables, new objective / direction, the three pricing rules, copy/assign/swap; oracle = exact reference "
+         "simplex per integer assignment; finally the history-built problem must agree with a fresh one. Families: feasible, degenerate vertex, "
+         "hostile, few rows (unbounded), LP-feasible but integer-infeasible. Non-trivial: a mutation after a solve, or integer variables with >= 3 rows, or >= 4 rows.",
+    technique="property-based testing (generated solver histories, reference LP + exhaustive integer enumeration, incremental-vs-fresh metamorphic check)",
+    level_text="Generated-history exploration against an exact reference (LP + complete enumeration of the boxed integer variables).",
+    level_note="<= 5 variables, integer variables boxed in [-3,3]; unbounded integer regions are not generated.",
+    design_ref="DESIGN.md 4 C06",
+    assumptions=["reference simplex is correct", "integer variables are boxed, so enumeration is complete"],
+)
